@@ -1666,6 +1666,7 @@ static struct uftrace_record *get_task_ustack(struct uftrace_data *handle, int i
 		struct uftrace_trigger tr = {};
 		uint64_t time_filter = handle->time_filter;
 		unsigned size_filter = handle->size_filter;
+		bool small = false;
 
 		curr = &task->ustack;
 
@@ -1690,18 +1691,29 @@ static struct uftrace_record *get_task_ustack(struct uftrace_data *handle, int i
 		if (tr.flags & TRIGGER_FL_SIZE_FILTER)
 			size_filter = tr.size;
 
-		if (curr->type == UFTRACE_ENTRY) {
-			if (size_filter) {
-				struct uftrace_symbol *sym;
+		if (size_filter && sess &&
+		    (curr->type == UFTRACE_ENTRY || curr->type == UFTRACE_EXIT)) {
+			struct uftrace_symbol *sym;
 
-				sym = find_symtabs(&sess->sym_info, curr->addr);
-				if (sym && sym->size >= size_filter)
-					add_to_rstack_list(rstack_list, curr, &task->args);
-			}
-			else {
-				/* it needs to wait until matching exit found */
+			sym = find_symtabs(&sess->sym_info, curr->addr);
+			small = !sym || sym->size < size_filter;
+		}
+
+		/*
+		 * The calls dropped by the size filter must not leave a hole in
+		 * the depth of the records that get through: a first record at
+		 * depth N looks like N frames inherited at fork() (counted as <0>
+		 * by uftrace report).
+		 */
+		if (small && curr->type == UFTRACE_EXIT && task->filter.size_skip > 0)
+			task->filter.size_skip--;
+		if ((int)curr->depth >= task->filter.size_skip)
+			curr->depth -= task->filter.size_skip;
+
+		if (curr->type == UFTRACE_ENTRY) {
+			/* it needs to wait until matching exit found */
+			if (!small)
 				add_to_rstack_list(rstack_list, curr, &task->args);
-			}
 
 			if (tr.flags & (TRIGGER_FL_TIME_FILTER | TRIGGER_FL_SIZE_FILTER)) {
 				struct uftrace_task_filter_stack *tfs;
@@ -1715,6 +1727,9 @@ static struct uftrace_record *get_task_ustack(struct uftrace_data *handle, int i
 
 				task->filter.stack = tfs;
 			}
+
+			if (small)
+				task->filter.size_skip++;
 		}
 		else if (curr->type == UFTRACE_EXIT) {
 			struct uftrace_rstack_list_node *last;
@@ -1733,13 +1748,8 @@ static struct uftrace_record *get_task_ustack(struct uftrace_data *handle, int i
 				}
 			}
 
-			if (size_filter) {
-				struct uftrace_symbol *sym;
-				sym = find_symtabs(&sess->sym_info, curr->addr);
-
-				if (sym && sym->size < size_filter)
-					continue;
-			}
+			if (small)
+				continue;
 
 			list_for_each_entry_reverse(last, &rstack_list->read, list) {
 				if (last->rstack.type == UFTRACE_ENTRY)
